@@ -366,3 +366,11 @@ func structToMapFieldNumberInterface(data interface{}, desc *proto.MessageDescri
 
 
 
+
+// elemWireType returns the wire type of the elements of a list descriptor (varint for anything else).
+func elemWireType(desc *proto.TypeDescriptor) proto.WireType {
+	if desc != nil && desc.IsList() && desc.Elem() != nil {
+		return desc.Elem().WireType()
+	}
+	return proto.VarintType
+}
